@@ -23,8 +23,16 @@ struct tctx { /* per simulated thread */
 	double term_gvt;
 	unsigned votes;
 	uint64_t forward, silent_n, rollbacks, undone, ckpts, antis; /* since the last stats record */
+	uint64_t undone_h, antis_h; /* the same two, derived by the harness from the history arrays */
 	bool lp_init_done;
 	uint64_t first, end;
+	int rid;
+	/* C20: what the harness saw between two statistics records of this thread */
+	struct obs_rec {
+		uint64_t fw, rb, undone, sil, ck, anti;
+		double gvt;
+	} *obs;
+	unsigned n_obs, cap_obs;
 };
 static struct tctx TC[VT_MAX];
 
@@ -45,6 +53,8 @@ struct lpmon {
 	size_t hist_cap;
 	size_t hist_base; /* number of history entries removed by fossil collection so far */
 	uint64_t forward;
+	/* C20: number of processed / total entries the harness believes the history holds */
+	uint64_t trk_proc, trk_total;
 };
 static struct lpmon LM[MODEL_MAX_LPS];
 
@@ -123,6 +133,8 @@ void eng_on_init(lp_id_t me)
 		sim_violation("C14", "double-init", "LP %llu initialised twice", (unsigned long long)me);
 	L->owner_vt = vt_self->id;
 	L->owner_rank = vt_self->rank;
+	if(!P.serial)
+		TC[vt_self->id].forward++;
 	sim_event(0x11, me, (uint64_t)vt_self->id);
 	sim_progress();
 	if(P.serial && serial_started)
@@ -210,6 +222,8 @@ void eng_on_dispatch(lp_id_t me, simtime_t now, unsigned type, const void *conte
 			L->hist_cap = nc;
 		}
 		L->hist_digest[idx] = system_digest(vt_self->rank, me);
+		L->trk_proc++;
+		L->trk_total = idx;
 		L->hist_parts[idx][0] = model_state_digest(lp->state_pointer);
 		L->hist_parts[idx][1] = lp->rng_ctx->state[0];
 		L->hist_parts[idx][2] = live_set_summary(&lp->mm_state);
@@ -379,6 +393,16 @@ void verif_wrap_termination_on_lp_rollback(struct lp_ctx *lp, simtime_t msg_time
 	/* C05: restore + coast-forward must reproduce the state recorded at this history index */
 	struct lpmon *L = &LM[me];
 	size_t idx = array_count(lp->p.p_msgs);
+	{
+		uint64_t proc_now = 0;
+		for(array_count_t k = 0; k < array_count(lp->p.p_msgs); k++)
+			proc_now += is_msg_past(array_get_at(lp->p.p_msgs, k));
+		uint64_t undone = L->trk_proc - proc_now, removed = L->trk_total - idx;
+		c->undone_h += undone;
+		c->antis_h += removed - undone;
+		L->trk_proc = proc_now;
+		L->trk_total = idx;
+	}
 	if(idx < L->hist_cap && L->hist_digest[idx]) {
 		uint64_t now = system_digest(rank, me);
 		if(now != L->hist_digest[idx])
@@ -512,6 +536,9 @@ void verif_wrap_fossil_lp_collect(struct lp_ctx *lp)
 	}
 	if(removed) {
 		probe_hit("fossil_removed");
+		for(array_count_t i = 0; i < removed; i++)
+			L->trk_proc -= past[i];
+		L->trk_total -= removed;
 		/* C13: the kept history must start at the kept checkpoint and be consistent with it */
 		if(after) {
 			if(!array_count(lp->mm_state.logs) || array_get_at(lp->mm_state.logs, 0).ref_i != 0)
@@ -547,6 +574,8 @@ void verif_wrap_process_lp_init(struct lp_ctx *lp)
 	L->hist_digest = calloc(L->hist_cap, sizeof(uint64_t));
 	L->hist_parts = calloc(L->hist_cap, sizeof(*L->hist_parts));
 	L->hist_digest[1] = system_digest(rank, me); /* the state right after LP_INIT */
+	L->trk_proc = 1;
+	L->trk_total = array_count(lp->p.p_msgs);
 }
 
 void verif_wrap_process_lp_fini(struct lp_ctx *lp)
@@ -588,9 +617,14 @@ void verif_wrap_stats_take(enum stats_thread_type s, uint_fast64_t c)
 void verif_wrap_stats_on_gvt(simtime_t g)
 {
 	RKC->stats_on_gvt(g);
-	if(vt_self) {
+	if(vt_self && tw_parallel()) {
 		struct tctx *c = tc();
-		c->forward = c->silent_n = c->rollbacks = c->undone = c->ckpts = c->antis = 0;
+		if(c->n_obs == c->cap_obs) {
+			c->cap_obs = c->cap_obs ? c->cap_obs * 2 : 64;
+			c->obs = realloc(c->obs, c->cap_obs * sizeof(*c->obs));
+		}
+		c->obs[c->n_obs++] = (struct obs_rec){c->forward, c->rollbacks, c->undone_h, c->silent_n, c->ckpts, c->antis_h, g};
+		c->forward = c->silent_n = c->rollbacks = c->undone = c->ckpts = c->antis = c->undone_h = c->antis_h = 0;
 	}
 }
 
@@ -625,6 +659,7 @@ void verif_wrap_lp_init(void)
 	c->first = *rk->p_lid_thread_first();
 	c->end = *rk->p_lid_thread_end();
 	c->lp_init_done = true;
+	c->rid = (int)*rk->p_rid();
 	M.workers_inited++;
 	sim_event(0x13, c->first, c->end);
 }
@@ -823,6 +858,11 @@ void tw_run(void)
 	for(int i = 0; i < MODEL_MAX_LPS; i++)
 		LM[i].owner_vt = -1;
 	snprintf(M.stats_path, sizeof(M.stats_path), "/verif/.work/stats_%d", (int)getpid());
+	{
+		char stale[300];
+		snprintf(stale, sizeof(stale), "%s.bin", M.stats_path);
+		unlink(stale); /* process ids are reused */
+	}
 	resolve_statics();
 	model_setup();
 	reference_run();
@@ -836,9 +876,133 @@ void tw_run(void)
 	sim_finish("ok");
 }
 
+/* ------------------------------------------------------------------ C20: independent reader of <stats>.bin */
+struct rd {
+	unsigned char *d;
+	size_t n, o;
+};
+static uint64_t rd_u(struct rd *r, unsigned sz)
+{
+	uint64_t v = 0;
+	if(r->o + sz > r->n)
+		sim_violation("C20", "truncated", "statistics file ends at byte %zu, field of %u bytes expected at %zu", r->n, sz, r->o);
+	memcpy(&v, r->d + r->o, sz);
+	r->o += sz;
+	return v;
+}
+
+static void stats_file_check(void)
+{
+	char path[300];
+	snprintf(path, sizeof(path), "%s.bin", M.stats_path);
+	FILE *f = fopen(path, "rb");
+	bool expect_none = false;
+	for(int r = 0; r < P.n_ranks; r++)
+		expect_none |= RK[r].global_config->stats_file == NULL; /* a failed tmpfile() turns statistics off: allowed */
+	if(!f) {
+		if(expect_none) {
+			probe_hit("stats_disabled_by_fault");
+			return;
+		}
+		sim_violation("C20", "no-file", "a statistics file was requested but %s does not exist", path);
+	}
+	struct rd r = {malloc(1 << 24), 0, 0};
+	r.n = fread(r.d, 1, 1 << 24, f);
+	fclose(f);
+	unlink(path);
+	if(rd_u(&r, 2) != 61455)
+		sim_violation("C20", "magic", "wrong magic number");
+	int64_t s_cnt = (int64_t)rd_u(&r, 8);
+	if(s_cnt != STATS_COUNT)
+		sim_violation("C20", "metric-count", "file announces %lld thread metrics", (long long)s_cnt);
+	for(int64_t i = 0; i < s_cnt; i++) {
+		unsigned l = (unsigned)rd_u(&r, 1);
+		if(r.o + l > r.n)
+			sim_violation("C20", "truncated", "metric name runs past the end of the file");
+		r.o += l;
+	}
+	int64_t n_cnt = (int64_t)rd_u(&r, 8);
+	if(n_cnt != P.n_ranks)
+		sim_violation("C20", "node-count", "file announces %lld nodes, the run had %lld", (long long)n_cnt, (long long)P.n_ranks);
+	for(int64_t nd = 0; nd < n_cnt; nd++) {
+		uint64_t t_cnt = rd_u(&r, 8);
+		for(int k = 0; k < 8; k++)
+			rd_u(&r, 8);
+		if(t_cnt != RK[nd].global_config->n_threads)
+			sim_violation("C20", "thread-count", "node %lld: file announces %llu threads, the node ran %u", (long long)nd,
+			    (unsigned long long)t_cnt, RK[nd].global_config->n_threads);
+		int64_t n_siz = (int64_t)rd_u(&r, 8);
+		if(n_siz < 0 || n_siz % 16)
+			sim_violation("C20", "node-array-size", "node %lld: size of the node GVT array is %lld", (long long)nd, (long long)n_siz);
+		int64_t n_rec = n_siz / 16;
+		double last = -1;
+		for(int64_t k = 0; k < n_rec; k++) {
+			uint64_t gb = rd_u(&r, 8);
+			rd_u(&r, 8);
+			double g;
+			memcpy(&g, &gb, 8);
+			if(g < last)
+				sim_violation("C20", "gvt-decreases", "node %lld: record %lld has GVT %g after %g", (long long)nd, (long long)k, g, last);
+			last = g;
+			if((uint64_t)k < M.rounds_known && k < GVT_ROUNDS_MAX && M.round_gvt[k] != g)
+				sim_violation("C20", "gvt-value", "node %lld: record %lld has GVT %g, the threads were told %g", (long long)nd, (long long)k, g,
+				    M.round_gvt[k]);
+		}
+		for(uint64_t t = 0; t < t_cnt; t++) {
+			int64_t t_siz = (int64_t)rd_u(&r, 8);
+			if(t_siz < 0 || t_siz % (s_cnt * 8))
+				sim_violation("C20", "thread-array-size", "node %lld thread %llu: size of the thread array is %lld", (long long)nd,
+				    (unsigned long long)t, (long long)t_siz);
+			int64_t t_rec = t_siz / (s_cnt * 8);
+			if(t_rec != n_rec)
+				sim_violation("C20", "record-count", "node %lld: %lld node records but thread %llu has %lld records", (long long)nd,
+				    (long long)n_rec, (unsigned long long)t, (long long)t_rec);
+			struct tctx *c = NULL;
+			for(int v = 0; v < G.nvt; v++)
+				if(G.vt[v].kind == VTK_WORKER && G.vt[v].rank == nd && TC[v].lp_init_done && TC[v].rid == (int)t)
+					c = &TC[v];
+			uint64_t cum_fw = 0, cum_undone = 0;
+			for(int64_t k = 0; k < t_rec; k++) {
+				uint64_t v[STATS_COUNT];
+				for(int q = 0; q < STATS_COUNT; q++)
+					v[q] = rd_u(&r, 8);
+				cum_fw += v[STATS_MSG_PROCESSED];
+				cum_undone += v[STATS_MSG_ROLLBACK];
+				if(cum_undone > cum_fw)
+					sim_violation("C20", "undone-exceeds-forward", "node %lld thread %llu record %lld: cumulatively %llu undone > %llu forward",
+					    (long long)nd, (unsigned long long)t, (long long)k, (unsigned long long)cum_undone, (unsigned long long)cum_fw);
+				if(!c || (uint64_t)k >= c->n_obs)
+					sim_violation("C20", "unexpected-record", "node %lld thread %llu has record %lld the harness never saw written",
+					    (long long)nd, (unsigned long long)t, (long long)k);
+				struct obs_rec *o = &c->obs[k];
+				if(v[STATS_MSG_PROCESSED] != o->fw || v[STATS_ROLLBACK] != o->rb || v[STATS_MSG_ROLLBACK] != o->undone ||
+				    v[STATS_MSG_SILENT] != o->sil || v[STATS_CKPT] != o->ck || v[STATS_MSG_ANTI] != o->anti)
+					sim_violation("C20", "counter-mismatch",
+					    "node %lld thread %llu record %lld (GVT %g): file says fw=%llu rb=%llu undone=%llu silent=%llu ckpt=%llu anti=%llu, "
+					    "observed fw=%llu rb=%llu undone=%llu silent=%llu ckpt=%llu anti=%llu",
+					    (long long)nd, (unsigned long long)t, (long long)k, o->gvt, (unsigned long long)v[STATS_MSG_PROCESSED],
+					    (unsigned long long)v[STATS_ROLLBACK], (unsigned long long)v[STATS_MSG_ROLLBACK],
+					    (unsigned long long)v[STATS_MSG_SILENT], (unsigned long long)v[STATS_CKPT], (unsigned long long)v[STATS_MSG_ANTI],
+					    (unsigned long long)o->fw, (unsigned long long)o->rb, (unsigned long long)o->undone, (unsigned long long)o->sil,
+					    (unsigned long long)o->ck, (unsigned long long)o->anti);
+			}
+			if(c && c->n_obs != (unsigned)t_rec)
+				sim_violation("C20", "record-lost", "node %lld thread %llu wrote %u records, the file holds %lld", (long long)nd,
+				    (unsigned long long)t, c->n_obs, (long long)t_rec);
+			probe_add("stats_records_checked", (uint64_t)t_rec);
+		}
+	}
+	if(r.o != r.n)
+		sim_violation("C20", "trailing-garbage", "%zu bytes after the last documented field", r.n - r.o);
+	free(r.d);
+	probe_hit("stats_files_parsed");
+}
+
 /* ------------------------------------------------------------------ end-of-run oracles */
 static void final_checks(void)
 {
+	if(P.stats && !P.serial)
+		stats_file_check();
 	lp_id_t n = (lp_id_t)P.n_lps;
 	if(M.ranks_returned != P.n_ranks)
 		sim_violation("C08", "not-returned", "%d of %d ranks returned", M.ranks_returned, (int)P.n_ranks);
